@@ -60,7 +60,7 @@ def shape_class(shape):
     return '2D-nx1' if nx == 1 else ('2D-ny1' if ny == 1 else '3D')
 
 
-def task_rectgeo(shape, atm, conv, conv2=None, free=(), snap='off', fix=None, profile=False):
+def task_rectgeo(shape, atm, conv, conv2=None, free=(), snap='off', fix=None, profile=False, boundary=None):
     """shape (nx, ny, nz); atm: atmosphere type of the geometry and the one
     passed to rectgeo; conv: naming convention of the original geometry; conv2:
     convention passed to rectgeo (None = same); free: columns with a symbolic
@@ -74,7 +74,7 @@ def task_rectgeo(shape, atm, conv, conv2=None, free=(), snap='off', fix=None, pr
     failures, samples, distinct = [], [], set()
     failed_labels = set()    # once an obligation kind has a counterexample in this task it is not re-proved
     state = dict(reached=0)
-    cfg = dict(shape=list(shape), atm=atm, convention=conv, convention2=conv2, free=list(free), snap=snap)
+    cfg = dict(shape=list(shape), atm=atm, convention=conv, convention2=conv2, free=list(free), snap=snap, boundary=boundary)
     layer_snap = 0.0 if snap == 'off' else 0.1
 
     def h(c):
@@ -110,7 +110,7 @@ def task_rectgeo(shape, atm, conv, conv2=None, free=(), snap='off', fix=None, pr
                 return GS.model_num(model, x)
             data = dict(cfg, label=label,
                         inputs={k: [val(x) for x in v] for k, v in inp.items()},
-                        surfaces=[val(s) for s in surfaces])
+                        surfaces=[val(s) for s in surfaces], bvol=val(bvol))
             failures.append(dict(key='%s/atm%d/%s%s' % (shape_class(shape), atm, _slug(label), extra_key), what=what, replay=data))
 
         # ---- forward conversion (C04's subject; here it only produces the input of rectgeo)
@@ -119,6 +119,15 @@ def task_rectgeo(shape, atm, conv, conv2=None, free=(), snap='off', fix=None, pr
         grid = T.t2grid().fromgeo(geo)
         for b in grid.blocklist:          # precondition of rectgeo: rock volumes below the threshold
             if not b.atmosphere: c.add(z3.And(GS.zterm(b.volume) > 0, GS.zterm(b.volume) < GS.zterm(maxvol)))
+        # the active grid, before any inactive boundary blocks are attached
+        act_blocks, act_cons = list(grid.blocklist), list(grid.connectionlist)
+        bvol = None
+        if boundary:
+            # inactive boundary blocks (Dirichlet conditions): volume zero or at least the
+            # threshold - a solver decision - attached to the x-max face or on top of each column
+            bvol = c.real('bvol')
+            c.add(z3.Or(bvol.e == 0, bvol.e >= GS.zterm(maxvol)))
+            GB.attach_boundary(T, ld.mulgrids.np, geo, grid, boundary, bvol, inp, nx, ny)
         r0, _m = c.reachable()
         if r0 != 'sat': return 'unreachable preconditions (%s)' % r0
 
@@ -178,27 +187,27 @@ def task_rectgeo(shape, atm, conv, conv2=None, free=(), snap='off', fix=None, pr
         # D. atmosphere arrangement
         S(geo2.atmosphere_type == atm, 'atmosphere type', 'atmosphere type %r' % (geo2.atmosphere_type,))
         n_atm = {0: 1, 1: ncol, 2: 0}[atm]
-        want_atm = [b.name for b in grid.blocklist[:n_atm]]
+        want_atm = [b.name for b in act_blocks[:n_atm]]
         got_atm = [bm.get(n) for n in geo2.block_name_list[:n_atm]]
         S(got_atm == want_atm, 'block map sends the atmosphere blocks to the original atmosphere blocks',
           'mapped %r, original %r' % (got_atm, want_atm))
         S(sorted(bm.keys()) == sorted(geo2.block_name_list), 'block map covers exactly the blocks of the reconstructed geometry',
           'map keys %r, geometry blocks %r' % (sorted(bm.keys()), sorted(geo2.block_name_list)))
         # E. second forward conversion reproduces the grid
-        n1, n2_ = [b.name for b in grid.blocklist], [b.name for b in grid2.blocklist]
+        n1, n2_ = [b.name for b in act_blocks], [b.name for b in grid2.blocklist]
         same_blocks = S(n1 == n2_, 'block names reproduced in order', 'original %r, reproduced %r' % (n1, n2_))
         if same_blocks:
-            for b1, b2 in zip(grid.blocklist, grid2.blocklist):
+            for b1, b2 in zip(act_blocks, grid2.blocklist):
                 where = 'block %r' % b1.name
                 P('block volume reproduced', b2.volume, b1.volume, where)
                 S((b1.centre is None) == (b2.centre is None), 'block centre presence', 'centre of %r' % b1.name)
                 if b1.centre is not None and b2.centre is not None:
                     for ax in range(3): P('block centre reproduced', b2.centre[ax], b1.centre[ax], where)
                 S(b1.atmosphere == b2.atmosphere, 'atmosphere flag reproduced', 'flag of %r' % b1.name)
-        k1 = [tuple(b.name for b in con.block) for con in grid.connectionlist]
+        k1 = [tuple(b.name for b in con.block) for con in act_cons]
         k2 = [tuple(b.name for b in con.block) for con in grid2.connectionlist]
         if S(k1 == k2, 'connections reproduced in order and orientation', 'original %r, reproduced %r' % (k1, k2)):
-            for c1, c2 in zip(grid.connectionlist, grid2.connectionlist):
+            for c1, c2 in zip(act_cons, grid2.connectionlist):
                 where = 'connection %s' % (tuple(b.name for b in c1.block),)
                 P('connection distance 1 reproduced', c2.distance[0], c1.distance[0], where)
                 P('connection distance 2 reproduced', c2.distance[1], c1.distance[1], where)
@@ -241,9 +250,9 @@ def task_rectgeo(shape, atm, conv, conv2=None, free=(), snap='off', fix=None, pr
 
     res = sym.explore(h, GS.FastCtx(timeout_ms=30000), max_paths=5000, wall_s=TASK_WALL_S, profile_repo=profile)
     if state['reached'] == 0: res['exhausted'] = False
-    name = 'rect%dx%dx%d/atm%d/conv%d->%d/free:%s/snap-%s%s' % (
+    name = 'rect%dx%dx%d/atm%d/conv%d->%d/free:%s/snap-%s%s%s' % (
         nx, ny, nz, atm, conv, conv2, ','.join(map(str, free)) or '-', snap,
-        '' if not fix else '/fix:' + ','.join('%d=%d' % kv for kv in sorted(fix.items())))
+        '' if not fix else '/fix:' + ','.join('%d=%d' % kv for kv in sorted(fix.items())), '' if not boundary else '/boundary-' + boundary)
     return report.summarize(name, res, failures, samples, extra=dict(distinct_obligations=len(distinct)))
 
 
@@ -283,8 +292,16 @@ def catalogue(tier):
         add(shape=(1, 2, 2), atm=atm, conv=atm + 1, free=[0, 1])
     add_split(1, shape=(3, 1, 2), atm=2, conv=0, free=[0, 1])
     add_split(1, shape=(1, 3, 2), atm=2, conv=3, free=[0, 2])
+    # (3b) inactive boundary blocks (volume 0 or >= the threshold: solver's choice) on the x-max
+    #      face / on top of every column must be ignored
+    add(shape=(2, 2, 2), atm=2, conv=0, free=[], boundary='side')
+    add(shape=(2, 2, 2), atm=2, conv=0, free=[], boundary='top')
+    add(shape=(2, 1, 2), atm=0, conv=1, free=[0], boundary='side')
     if quick: return T
     # ---- thorough only
+    add_split(1, shape=(2, 2, 2), atm=1, conv=3, free=[1], boundary='side')
+    add_split(1, shape=(2, 2, 2), atm=2, conv=2, free=[2], boundary='top')
+    add(shape=(3, 2, 2), atm=0, conv=0, free=[], boundary='top')
     # (4) 2x2x2 with two / three stepped columns
     add_split(2, shape=(2, 2, 2), atm=1, conv=0, free=[0, 1, 3])
     add_split(1, shape=(2, 2, 2), atm=2, conv=1, conv2=2, free=[1, 2])
